@@ -24,7 +24,9 @@ RULE = ('generator x operand widths x parameters x operand values: kogge_stone, 
         '{kogge_stone,ripple_add,cla_adder}; signed_tree_multiplier; carrysave_adder x 3 final adders; '
         'fast_group_adder (2..9 operands) and fused_multiply_adder/generalized_fma x 6 '
         'reducer/adder configurations; direct reducer calls on random column profiles; simple_mult and '
-        'complex_mult(shifts) driven cycle by cycle; kogge_stone additionally per prefix stage on its internal '
+        'complex_mult(shifts) driven cycle by cycle over arbitrary start/operand histories; operand IDENTITY '
+        'patterns for every adder/multiplier (the same wire object as several operands, slices / extensions / '
+        'complements / concatenations of another operand, Const and Register operands); kogge_stone additionally per prefix stage on its internal '
         'generate/propagate wires (30-36 width pairs up to 64/65 bits).  All width pairs up to the exhaustive bound are '
         'swept over every operand value; mixed widths up to 16 and a few at 63..65 use boundary + seeded '
         'random values.  A case = (generator, parameters, widths, operand vector); it is non-trivial when '
@@ -187,15 +189,105 @@ def signature(kind, label, widths, vals, exp, got, outlen, raised, extra=None):
     return base + ':wrong-result'
 
 
+# --------------------------------------------------------------------------- operand identity patterns
+# An operand of a generator need not be a fresh Input: it can be THE SAME wire object as another
+# operand, a slice / extension / complement / concatenation of one, a Const or a Register.  A derived
+# job lists how each operand is obtained from a few source Inputs; identical derivations yield the very
+# same wire object.  The specification and the Coq model only see the operand VALUES.
+
+def op_width(op, sw):
+    t = op[0]
+    if t in ('in', 'not', 'reg'):
+        return sw[op[1]]
+    if t == 'slice':
+        return op[3] - op[2]
+    if t == 'zext':
+        return op[2]
+    if t == 'const':
+        return op[2]
+    if t == 'cat':
+        return sw[op[1]] + sw[op[2]]
+    raise ValueError(op)
+
+
+def op_value(op, sv, sw):
+    t = op[0]
+    if t in ('in', 'reg', 'zext'):
+        return sv[op[1]]
+    if t == 'not':
+        return sv[op[1]] ^ ((1 << sw[op[1]]) - 1)
+    if t == 'slice':
+        return (sv[op[1]] >> op[2]) & ((1 << (op[3] - op[2])) - 1)
+    if t == 'const':
+        return op[1]
+    if t == 'cat':
+        return (sv[op[1]] << sw[op[2]]) | sv[op[2]]
+    raise ValueError(op)
+
+
+def op_text(op):
+    t = op[0]
+    if t == 'in':
+        return 'x%d' % op[1]
+    if t == 'not':
+        return '~x%d' % op[1]
+    if t == 'reg':
+        return 'Register(next=x%d)' % op[1]
+    if t == 'slice':
+        return 'x%d[%d:%d]' % (op[1], op[2], op[3])
+    if t == 'zext':
+        return 'x%d.zero_extended(%d)' % (op[1], op[2])
+    if t == 'const':
+        return 'Const(%d, bitwidth=%d)' % (op[1], op[2])
+    return 'concat(x%d, x%d)' % (op[1], op[2])
+
+
+def op_wire(op, srcs, cache):
+    op = tuple(op)
+    if op in cache:
+        return cache[op]
+    t = op[0]
+    if t == 'in':
+        w = srcs[op[1]]
+    elif t == 'not':
+        w = ~srcs[op[1]]
+    elif t == 'reg':
+        w = pyrtl.Register(len(srcs[op[1]]))
+        w.next <<= srcs[op[1]]
+    elif t == 'slice':
+        w = srcs[op[1]][op[2]:op[3]]
+    elif t == 'zext':
+        w = srcs[op[1]].zero_extended(op[2])
+    elif t == 'const':
+        w = pyrtl.Const(op[1], bitwidth=op[2])
+    else:
+        w = pyrtl.concat(srcs[op[1]], srcs[op[2]])
+    cache[op] = w
+    return w
+
+
+def derived_job(kind, src_widths, ops, src_cases, **kw):
+    ops = [tuple(o) for o in ops]
+    widths = [op_width(o, src_widths) for o in ops]
+    cases = [tuple(op_value(o, sv, src_widths) for o in ops) for sv in src_cases]
+    return dict(kind=kind, widths=widths, cases=cases,
+                derive={'src_widths': list(src_widths), 'ops': ops, 'src_cases': [tuple(c) for c in src_cases]}, **kw)
+
+
 # --------------------------------------------------------------------------- running PyRTL
 
-def build_and_sim(widths, gens, cases, fast=False):
+def build_and_sim(widths, gens, cases, fast=False, derive=None):
     """build every generator of `gens` on fresh Inputs of the given widths in one block and
     simulate all cases.  Returns (lens, errs, rows)."""
     errs = [None] * len(gens)
     for attempt in range(2):
         pyrtl.reset_working_block()
-        ins = [pyrtl.Input(w, 'i%d' % k) for k, w in enumerate(widths)]
+        if derive is None:
+            ins = [pyrtl.Input(w, 'i%d' % k) for k, w in enumerate(widths)]
+        else:
+            srcs = [pyrtl.Input(w, 'i%d' % k) for k, w in enumerate(derive['src_widths'])]
+            cache = {}
+            ins = [op_wire(o, srcs, cache) for o in derive['ops']]
         outs = [None] * len(gens)
         lens = [-1] * len(gens)
         dirty = False
@@ -221,9 +313,12 @@ def build_and_sim(widths, gens, cases, fast=False):
         # exhaustive sweeps (thousands of vectors per design) use FastSimulation for speed;
         # everything else uses the reference-checked pyrtl.Simulation
         sim = (pyrtl.FastSimulation if fast else pyrtl.Simulation)(tracer=tracer, block=block)
-        names = ['i%d' % k for k in range(len(widths))]
-        for vals in cases:
+        names = ['i%d' % k for k in range(len(widths if derive is None else derive['src_widths']))]
+        twice = derive is not None and any(o[0] == 'reg' for o in derive['ops'])
+        for vals in (cases if derive is None else derive['src_cases']):
             sim.step(dict(zip(names, vals)))
+            if twice:       # a Register operand shows the source value one cycle later
+                sim.step(dict(zip(names, vals)))
             rows.append([sim.inspect(o.name) if o is not None else -1 for o in outs])
     else:
         rows = [[-1] * len(gens) for _ in cases]
@@ -297,7 +392,7 @@ def exec_comb(job):
     if job['kind'] == 'add2':
         widths = widths[:2] + [1]
     lens, errs, rows = build_and_sim(widths, gens, job_cases(dict(job, widths=widths)),
-                                     fast=bool(job.get('exh')))
+                                     fast=bool(job.get('exh')), derive=job.get('derive'))
     return {'lens': lens, 'errs': errs, 'rows': rows}
 
 
@@ -584,6 +679,46 @@ def make_jobs(ctx):
         vs = [(1 << big) - 1, 1 << (big - 1), 1, 0, r.getrandbits(big), r.getrandbits(big)]
         cs = [(one, v) if wa == 1 else (v, one) for v in vs for one in (1, 0)]
         jobs.append({'kind': 'mul2', 'widths': [wa, wb], 'cases': cs})
+    # operand identity patterns: the same wire object as several operands, slices / extensions /
+    # complements / concatenations of another operand, Const and Register operands
+    def src_cases(r, sw, n=20):
+        if sum(sw) <= 8:
+            return list(itertools.product(*[range(1 << w) for w in sw]))
+        return sample_vectors(r, sw, n)
+    I0, I1 = ('in', 0), ('in', 1)
+    for w in ((2, 3, 4, 8) if quick else (2, 3, 4, 5, 6, 8, 13, 16)):
+        r = ctx.sub_rng('identity', w)
+        full = (1 << w) - 1
+        pats2 = [[I0, I0], [I0, ('slice', 0, 0, max(1, w - 1))], [('slice', 0, 1, w), I0], [I0, ('zext', 0, w + 2)],
+                 [I0, ('not', 0)], [I0, ('const', full, w)], [('const', 5, 3), I0], [('reg', 0), I0],
+                 [('reg', 0), ('reg', 0)], [('cat', 0, 0), I0], [('slice', 0, 0, w // 2 + 1), ('slice', 0, 0, w // 2 + 1)]]
+        for pi, ops in enumerate(pats2):
+            sel = None if w <= 4 else [pi % 6, (pi + 3) % 6, 6]
+            jobs.append(derived_job('mul2', [w], ops, src_cases(r, [w]), sel=sel))
+        pats_add = [[I0, I0, I1], [I0, I0, ('slice', 0, 0, 1)], [I0, ('slice', 0, 1, w), I1], [I0, ('const', full, w), I1],
+                    [('reg', 0), I0, I1], [I0, ('not', 0), I1], [I0, I0, ('const', 1, 1)],
+                    [('zext', 0, w + 3), I0, ('slice', 0, w - 1, w)], [('cat', 0, 0), I0, I1]]
+        for ops in pats_add:
+            jobs.append(derived_job('add2', [w, 1], ops, src_cases(r, [w, 1])))
+        w1 = max(1, w - 1)
+        pats3 = [[I0, I0, I0], [I0, I0, I1], [I0, I1, I0], [I1, I0, I0], [I0, I1, ('slice', 0, 0, w1)],
+                 [I0, ('const', full, w), I0], [('reg', 0), I0, I1], [I0, ('not', 0), I0], [('cat', 0, 1), I0, I1],
+                 [I1, I1, ('zext', 1, w1 + 2)]]
+        for pi, ops in enumerate(pats3):
+            sel = None if w <= 3 else [pi % 3, 3 + pi % 6, 3 + (pi + 3) % 6, 9 + pi % 6, 9 + (pi + 4) % 6]
+            jobs.append(derived_job('tri', [w, w1], ops, src_cases(r, [w, w1]), sel=sel))
+        pats_f = [[I0, I0, I1, I0], [I0] * 5, [I0, ('slice', 0, 0, w1), I1, ('const', full, w), I0, ('reg', 0)],
+                  [I0, I0], [I0, I0, I0], [I1, ('not', 1), I1, I0, I0, I0, I0]]
+        for pi, ops in enumerate(pats_f):
+            for red in (0, 1):
+                jobs.append(derived_job('fga', [w, w1], ops, src_cases(r, [w, w1]),
+                                        ra=(red, ADD_CODES[(pi + red) % 3])))
+        pats_g = [(1, [I0, I0, I0]), (2, [I0, I0, I0, I1, I1, I0]), (2, [I0, I1, I1, I0]),
+                  (1, [I0, ('slice', 0, 0, w1), ('const', 3, 2)]), (2, [I0, I0, I0, I0, I0, I0, I0]),
+                  (1, [('reg', 0), ('reg', 0), I0, ('not', 0)])]
+        for pi, (npairs, ops) in enumerate(pats_g):
+            jobs.append(derived_job('gfma', [w, w1], ops, src_cases(r, [w, w1]), npairs=npairs,
+                                    ra=(pi % 2, ADD_CODES[pi % 3])))
     # direct reducer calls on random column profiles (tie only)
     nr = 40 if quick else 300
     for i in range(nr):
@@ -666,6 +801,10 @@ def model_columns(kind, ngens):
 
 
 def api_call(kind, label, widths, job):
+    if job.get('derive'):
+        d = job['derive']
+        return '%s(%s) with x_k = Input(bitwidth=%s)' % (
+            label, ', '.join(op_text(o) for o in d['ops']), d['src_widths'])
     if kind == 'reduce':
         return '%s(columns of heights %s, result_bitwidth=%d)' % (label, job['heights'], job['rw'])
     if kind == 'gfma':
@@ -727,9 +866,14 @@ def compare_comb(ctx, col, job, res, model, variants):
             exp = spec_value(kind, gi, label, vals, widths, extra)
             if got != exp:
                 sig = signature(kind, label, widths, vals, exp, got, ilen, False, extra)
+                if (sig.endswith(('wrong-result', 'wrong-product', 'wrong-sum')) and job.get('derive')
+                        and len(set(job['derive']['ops'])) < len(job['derive']['ops'])):
+                    sig += ':same-wire-operands'
                 col.add_spec(sig, (size, vals), '%s: operands %s -> %d, exact result %d (result bitwidth %d)' % (
                     call, list(vals), got, exp, ilen),
-                    {'api': call, 'widths': widths, 'operands': list(vals), 'expected': exp, 'got': got,
+                    {'api': call, 'widths': widths, 'operands': list(vals),
+                     'source_inputs(x0,x1,..)': list(job['derive']['src_cases'][ci]) if job.get('derive') else None,
+                     'expected': exp, 'got': got,
                      'result_bitwidth': ilen})
                 ctx.count('spec_failures', sig)
                 nbad += 1
